@@ -108,7 +108,7 @@ def variant_attr_items(v):
     for g in sorted(groups):
         ps = []
         for p in groups[g]:
-            key = uncp(p["key"])
+            key = p.get("keysrc") or uncp(p["key"])
             if p["ty"] == "s":
                 ps.append("%s = %s" % (key, rs_str(p["val"])))
             else:
@@ -199,6 +199,8 @@ def inst(E):
 
 def turbofish(E):
     i = GENERICS[E["generics"]]["inst"]
+    if E["generics"] == "lt":
+        i = ""            # lifetime arguments are not allowed on a variant path
     return E["name"] + ("::" + i if i else "")
 
 
